@@ -74,13 +74,19 @@ func parallel(n int, f func(g int, r *rng)) {
 var seed uint64
 
 func main() {
-	part := flag.String("part", "loader", "loader|files|values|types|declare")
+	part := flag.String("part", "loader", "loader|files|values|types|declare|firstdo")
 	dir := flag.String("dir", "", "scratch directory")
 	n := flag.Int("n", 8, "goroutines")
 	iters := flag.Int("iters", 300, "iterations per goroutine")
 	rounds := flag.Int("rounds", 5, "fresh worlds")
 	flag.Uint64Var(&seed, "seed", 1, "seed")
 	flag.Parse()
+	if *part == "firstdo" {
+		// the first use of the runtime by n goroutines at once: once per process, no warm-up
+		stressFirstDo(*n)
+		fmt.Printf("DONE %s %d\n", *part, ops)
+		return
+	}
 	pcore.Do(func(c px.Context) {})
 	for round := 0; round < *rounds; round++ {
 		switch *part {
@@ -104,6 +110,57 @@ func main() {
 }
 
 type thing struct{ id int }
+
+// ---- the first initialization of the runtime, entered by n goroutines at once (a fresh process per run) ------
+
+type earlyThing struct {
+	A int
+	B string
+}
+
+func stressFirstDo(n int) {
+	// what the init() functions of a program do: declarations made before anybody has called the runtime
+	px.NewObjectType("C13race::Early", `{attributes => {a => Integer}}`)
+	want := []string{"{'a' => 1}", "['x', 'y']", "{'a' => 3, 'b' => 'b'}", "Pcore::MemberName true false", "C13race::Early('a' => 3) static=true"}
+	uses := func(c px.Context) {
+		got := []string{
+			px.Wrap(c, map[string]int{"a": 1}).String(),
+			px.Wrap(c, []string{"x", "y"}).String(),
+			px.Wrap(c, &earlyThing{3, "b"}).String(),
+		}
+		if v, ok := px.Load(c, tn("Pcore::MemberName")); !ok {
+			got = append(got, "Pcore::MemberName absent")
+		} else {
+			got = append(got, fmt.Sprintf("%s %v %v", v.(px.Type).String(), px.IsInstance(c.ParseType("Pcore::QRef"), types.WrapString("Ab::Cd")), px.IsInstance(v.(px.Type), types.WrapString("9x"))))
+		}
+		if v, ok := px.Load(c, tn("C13race::Early")); !ok {
+			got = append(got, "absent")
+		} else if ot, isObj := v.(px.ObjectType); !isObj || ot.AttributesInfo() == nil {
+			got = append(got, fmt.Sprintf("unresolved %T", v))
+		} else {
+			got = append(got, fmt.Sprintf("%s static=%v", px.New(c, ot, types.WrapInteger(3)).String(), px.StaticLoader().HasEntry(tn("C13race::Early"))))
+		}
+		for i := range want {
+			if got[i] != want[i] {
+				functional("firstdo", "a goroutine whose first use of the runtime raced with the first use by others got %q, sequentially it gets %q", got[i], want[i])
+			}
+		}
+	}
+	parallel(n, func(g int, r *rng) {
+		guard("firstdo", "the first use of the runtime", func() {
+			switch (g + int(seed)) % 3 {
+			case 0:
+				pcore.Do(uses)
+			case 1:
+				uses(pcore.RootContext())
+			default:
+				if err := pcore.Try(func(c px.Context) error { uses(c); return nil }); err != nil {
+					panic(err)
+				}
+			}
+		})
+	})
+}
 
 func newCtx() px.Context { return pcore.NewContext(px.StaticLoader(), pcore.Logger()) }
 
